@@ -1,5 +1,5 @@
 """C10 - compaction is maximal, idempotent and canonical."""
-from .. import core, gen, spec
+from .. import bulk, core, gen, spec
 from .. import compactgen as cg
 
 LEVEL = "proof"
@@ -30,6 +30,12 @@ def run(run):
     sets.append(("corpus-F3", spec.children(spec.encode(0, 0, ())) + [spec.encode(0, f, ()) for f in range(1, 12)]))
     sets.append(("whole-sphere-r2", [c for c in gen.all_cells(2)]))
     sets.append(("whole-sphere-mixed", [c for f in range(6) for c in spec.children(spec.encode(0, f, ()))] + [spec.encode(0, f, ()) for f in range(6, 12)]))
+    # the deepest cascades: the whole sphere / a face / a quintant / a deep cell refined along one branch down to resolution 29, 28, 27, ...
+    for d in (29, 29, 28, 27, 20):
+        sets.append((f"chain-world-{d}", cg.chain_cover(rng, 0, d)))
+    sets.append(("chain-face-29", cg.chain_cover(rng, spec.encode(0, rng.randrange(12), ()), 29)))
+    sets.append(("chain-quintant-29", cg.chain_cover(rng, spec.encode(1, rng.randrange(60), ()), 29)))
+    sets.append(("chain-deep-29", cg.chain_cover(rng, gen.rand_cell(rng, rng.randint(2, 12)), 29)))
     n = run.n(150, 5000)
     for _ in range(n):
         m = rng.random()
@@ -84,7 +90,8 @@ def run(run):
         out = cg.parse_list(a)
         if out is None or set(out) != set(res[(k, tag)]) or len(out) != len(res[(k, tag)]):
             run.violation("compacting the compacted result changes it", q[:600], a[:300])
-    run.rule = ("non-overlapping sets: the repaired-defect witness and whole-sphere covers first, then random antichains and fully subdivided roots (world/base/quintant/deep roots on several faces) "
+    bulk.check_compact(run, bulk.compact_requests(run, overlapping=None)[:4], "compact (bulk)")
+    run.rule = ("bulk non-overlapping fills (2.5e5 cells, in order / shuffled / one cell missing) vs the expected canonical cover; non-overlapping sets: the repaired-defect witness and whole-sphere covers first, the longest merge cascades (world cell / face / quintant / deep cell refined along one branch down to resolution 29: one pass per level), then random antichains and fully subdivided roots (world/base/quintant/deep roots on several faces) "
                 "whose groups complete only after earlier merges; each paired with a second antichain of the same region obtained by random re-subdivision, and both also given in ascending / descending numeric order; "
                 "oracle = independent bottom-up canonical cover on the tree; non-trivial = distinct sets on which at least one merge happened")
     run.samples = [{"request": reqs[i][:200], "impl": impl[i][:200]} for i in rng.sample(range(len(reqs)), 5)]
